@@ -55,7 +55,8 @@ def flags_for(unit):
 def _one(unit, names, tag):
     os.makedirs(OUT, exist_ok=True)
     key = hashlib.sha1((unit + "|" + (names or "") + "|" + tag).encode()).hexdigest()[:16]
-    out = os.path.join(OUT, key + ".json")
+    import threading
+    out = os.path.join(OUT, "%s-%d-%d.json" % (key, os.getpid(), threading.get_ident()))     # concurrent checks export the same unit: one file per exporter run
     cmd = [EXPORTER, "--out=" + out, "--root=" + REPO.rstrip("/") + "/"]
     if names:
         cmd.append("--names=" + names)
